@@ -43,6 +43,9 @@ Terminates == <>(s.pc = "done")
 (* LabelValues returns every value of the label, in order, for every sampling rate *)
 LabelValuesComplete == LET r == AlgoLabelValues(n, k) IN ~r.err /\ r.vals = [j \in 1..n |-> Val(j)]
 
+(* symbols: every history of 4 lookups over 4 refs through a 2-slot cache answers like the table *)
+ASSUME \A h \in [1..4 -> 0..3] : SymLookups(2, h) = [x \in 1..4 |-> Sym(h[x])]
+
 (* ---- leg B: every (n, k, W) is looked up in a real index-header ---- *)
 CasesFile == IF "VERIF_CASES" \in DOMAIN IOEnv THEN IOEnv.VERIF_CASES ELSE "cases.ndjson"
 CaseSet == UNION { { [n |-> nn, k |-> kk, W |-> w] : kk \in Ks, w \in Requests(nn) } : nn \in 1..MaxN }
